@@ -83,6 +83,8 @@ _HOSTILE_KINDS = (
     ("row-open!", u"    | {name} {} | %s %", "row-open"),
     ("text!", u"    " + HOSTILE + u" text", "text"), ("text-less-indent!", u"  " + HOSTILE, "text-less-indent"),
     ("lang-zz!", u"# language: {name}%s%(x)s{", "lang-zz"),
+    # steps whose text ends with ':' (BEHAVE_STRIP_STEPS_WITH_TRAILING_COLON=yes strips it when an argument follows)
+    ("given:", u"  Given g:", "given"), ("star:", u"  * s:", "star"),
 )
 PLAIN_NK = len(KINDS)
 KINDS = KINDS + tuple(k[1] for k in _HOSTILE_KINDS)
@@ -118,14 +120,61 @@ REC = _Rec()
 _P = {}
 
 
+_PM_CODE = {}
+_ENVS = {}
+STRIP_COLON_ENV = {"BEHAVE_STRIP_STEPS_WITH_TRAILING_COLON": "yes"}
+
+
+def fresh_parser_module(env=None):
+    """A private, freshly executed copy of behave/parser.py that is not registered in sys.modules (source compiled
+    once per worker).  env: environment variables that are set while the module body runs (behave.parser reads its
+    documented switches at import time) and restored afterwards - the worker's own behave.parser is not affected."""
+    import os
+    import types
+    import behave.parser as real
+    path = real.__file__
+    if path.endswith(("c", "o")):
+        path = path[:-1]
+    if path not in _PM_CODE:
+        with open(path, "rb") as f:
+            _PM_CODE[path] = compile(f.read(), path, "exec")
+    mod = types.ModuleType("behave.parser")
+    mod.__package__ = "behave"
+    mod.__file__ = path
+    saved = dict((k, os.environ.get(k)) for k in (env or {}))
+    try:
+        os.environ.update(env or {})
+        exec(_PM_CODE[path], mod.__dict__)
+    finally:
+        for k, v in saved.items():
+            if v is None:
+                os.environ.pop(k, None)
+            else:
+                os.environ[k] = v
+    return mod
+
+
+def switched_env(name="strip-colon"):
+    """recording environment (like install()) around a private module copy executed with a documented switch ON"""
+    if name not in _ENVS:
+        install()
+        _ENVS[name] = _make_env(fresh_parser_module(STRIP_COLON_ENV))
+    return _ENVS[name]
+
+
 def install():
     """Replace behave.parser.Parser by the recording subclass (idempotent, this process only)."""
     if _P:
         return _P
     import behave.parser as bp
-    from behave import model
     logging.getLogger("behave").addHandler(logging.NullHandler())
     logging.getLogger("behave").propagate = False
+    _P.update(_make_env(bp))
+    return _P
+
+
+def _make_env(bp):
+    from behave import model
     Base = bp.Parser
 
     class RecParser(Base):
@@ -142,11 +191,10 @@ def install():
 
     RecParser.__name__ = "Parser"
     bp.Parser = RecParser
-    _P.update(bp=bp, model=model, Base=Base, ParserError=bp.ParserError,
-              entry={"feature": bp.parse_feature, "rule": bp.parse_rule, "scenario": bp.parse_scenario,
-                     "steps": bp.parse_steps, "tags": bp.parse_tags},
-              states=[s.name for s in bp.State if hasattr(Base, "action_" + s.name.lower())])
-    return _P
+    return dict(bp=bp, model=model, Base=Base, ParserError=bp.ParserError,
+                entry={"feature": bp.parse_feature, "rule": bp.parse_rule, "scenario": bp.parse_scenario,
+                       "steps": bp.parse_steps, "tags": bp.parse_tags},
+                states=[s.name for s in bp.State if hasattr(Base, "action_" + s.name.lower())])
 
 
 def _bgsig(bg):
@@ -212,13 +260,13 @@ def exc_site(e):
     return name
 
 
-def run_text(entry, text, hlen=None):
+def run_text(entry, text, hlen=None, env=None):
     """-> (outcome, dead, abstract_state_or_None, action_calls, result)
 
     outcome = ("ok", typename) | ("PE", line, site) | ("EXC", exception typename, site)
     dead    = the exception left Parser.action (a line could not be consumed)
     """
-    P = _P or install()
+    P = env or _P or install()
     REC.reset()
     res = None
     try:
@@ -250,8 +298,8 @@ def run_text(entry, text, hlen=None):
     return out, dead, snap, calls, res
 
 
-def run_history(entry, hist):
-    return run_text(entry, text_of(hist), len(hist))
+def run_history(entry, hist, env=None):
+    return run_text(entry, text_of(hist), len(hist), env)
 
 
 def nlines(text):
@@ -280,6 +328,7 @@ def invariant(entry, text, out, calls, where):
     return v
 
 
+SWITCH_ON_KINDS = tuple(range(PLAIN_NK)) + tuple(i for i, n in enumerate(KIND_NAMES) if n in ("given:", "star:"))
 BADTAG_KINDS = tuple(i for i, n in enumerate(KIND_NAMES) if n in ("badtag", "badtag!"))
 
 
